@@ -226,7 +226,12 @@ async fn run() {
                 }
                 Ok(None) => break,
                 Err(e) if e.is_final() => break,
-                Err(_) => kit::probe("retry_receiver_saw_failed_item"),
+                Err(_) => {
+                    kit::probe("retry_receiver_saw_failed_item");
+                    if kit::spinning() {
+                        break;
+                    }
+                }
             }
         }
     });
